@@ -984,14 +984,16 @@ class Check:
     ID = "C28"
     LEVEL = "exploration"
     RULE = ("rule space (enumerated rules of <= 2 clauses over one-/two-value conditions on {A,B,C,null} with results {A,M,null}, "
-            "default absent/present, 7 special shapes; aggregate min/max/sum/avg on String / Number attributes; 2 configurations "
-            "with two viral attributes) x 4 data layouts (pairs/triples of values incl. 'no datapoint' packed by C_id; groups of "
-            "1-3 rows x every physical row permutation; every dataset of 1-3 rows; hierarchy children x every permutation) x the "
-            "statement battery of the layout, all statements of a layout in one run. A case = one viral value of one result "
-            "datapoint of one statement checked against the model's acceptable set (plus one case per group and statement for "
-            "row-order independence, plus one per statement x variant x API for the missing-rule error). distinct = (rule shape, "
-            "operator context, class of the combined values [count, nulls, unmatched operand, order-sensitive rule], outcome); "
-            "non-trivial = a viral value was compared and the datapoint is not a lone null.")
+            "default absent/present, 7 special shapes incl. labelled / 3-clause / null-valued; aggregate min/max/sum/avg on String / "
+            "Number attributes; 2 configurations with two viral attributes) x 4 data layouts (every triple of values incl. 'no "
+            "datapoint' packed by C_id; groups of 1-3 rows x every physical row permutation; every dataset of 1-3 rows; hierarchy "
+            "children x every permutation) x the statement battery of the layout (all statements of a layout in ONE engine run; "
+            "statement-level + C_id packing). A case = one viral value of one result datapoint of one statement checked against "
+            "the model's acceptable set; plus one case per (statement, group values) for row-order independence; plus one per "
+            "(statement, variant, API) for the missing-rule error. distinct = (rule shape, operator context, class of the combined "
+            "values [count, nulls, unmatched operand, order-sensitive rule], outcome); non-trivial = a viral value was compared and "
+            "the datapoint is not a lone null. Violations are collected per finding key, the simplest candidate of each key is "
+            "re-executed alone on its minimal slice (row-order findings: the single group in two physical orders) before it is reported.")
     ASSUMPTIONS = [
         "two-value clauses are tried before one-value clauses (engine convention pinned by tests 1-2, 4-7); when a rule declares a "
         "one-value clause before a two-value clause the declaration-order reading is accepted as well",
@@ -1005,7 +1007,9 @@ class Check:
         "if/case: the then- and else-datapoints are combined with the pair rule whatever the condition; check(): the pair-combined "
         "value, optionally mapped once more; check_hierarchy / hierarchy leaves under 'all': raw or mapped value",
         "analytic invocations are only exercised with the whole partition as window; Integer viral attributes, value-domain rules, "
-        "pivot, time operators and dataset-scalar if/case are not modelled",
+        "pivot, time operators, dataset-scalar if/case, viral attributes present in only one operand of a dataset-dataset operator "
+        "and binary clauses whose two values are equal are not modelled",
+        "nested dataset expressions are evaluated inside-out: the value computed for the inner expression is what the outer operator combines",
     ]
 
     def run(self, tier, seed, rec):
